@@ -14,6 +14,7 @@ import (
 
 	"github.com/lesismal/nbio"
 	"github.com/lesismal/nbio/logging"
+	"github.com/lesismal/nbio/mempool"
 	"github.com/lesismal/nbio/taskpool"
 
 	"verif/harness/common"
@@ -151,6 +152,10 @@ func (l simLogger) Error(f string, a ...interface{}) {
 	}
 }
 
+// ReadBufHooks, when set, makes every engine take its read buffers from mempool.DefaultMemPool through
+// the OnReadBufferAlloc / OnReadBufferFree hooks (one buffer per read, returned after the data callback).
+var ReadBufHooks bool
+
 // OnWritten, when set, is registered as the engine's OnWrittenSize hook (the e2e world's C11
 // runs use it to look at the bytes the hook is given).
 var OnWritten func(c *nbio.Conn, b []byte, n int)
@@ -237,6 +242,12 @@ func NewWorld(t *testing.T, o *common.Outcome, prop string, cfg EngCfg, kp kerne
 	g.OnData(w.onData)
 	if OnWritten != nil {
 		g.OnWrittenSize(OnWritten)
+	}
+	if ReadBufHooks {
+		// application supplied read buffers (C11 runs: taken from and returned to the tracked pool)
+		size := cfg.ReadBuf
+		g.OnReadBufferAlloc(func(c *nbio.Conn) *[]byte { return mempool.Malloc(size) })
+		g.OnReadBufferFree(func(c *nbio.Conn, pbuf *[]byte) { mempool.Free(pbuf) })
 	}
 	g.OnClose(w.onClose)
 	return w
